@@ -66,6 +66,44 @@ func genPMap(cfg Config, emit func(string, bool, []string)) {
 		add("mnew")
 		nm, ns := 1, 0
 		inTxn := false
+		if c%10 == 7 {
+			// threshold walker: a key that is a prefix of `top` others, which are removed one by one
+			// across the node-size boundaries (49/48, 17/16, 5/4), in a Map and in a Set
+			stem := [][]byte{{}, {'k'}, {'k', 0xff}}[r.IntN(3)]
+			if ascii {
+				stem = [][]byte{{}, {'k'}}[r.IntN(2)] // valid UTF-8 only: these cases also round-trip through JSON / YAML
+			}
+			top := []int{52, 19, 7}[r.IntN(3)]
+			var kids [][]byte
+			from := fmt.Sprintf("mfrom 0 %s 1", hx(stem))
+			snew := "snew " + hx(stem)
+			for i := 0; i < top; i++ {
+				k := append(append([]byte{}, stem...), byte(2*i+2)) // < 0x80
+				kids = append(kids, k)
+				from += fmt.Sprintf(" %s %d", hx(k), i+2)
+				snew += " " + hx(k)
+			}
+			add("%s", from)
+			nm++
+			add("%s", snew)
+			ns++
+			r.Shuffle(len(kids), func(i, j int) { kids[i], kids[j] = kids[j], kids[i] })
+			for i := 0; i < 7 && i < len(kids); i++ {
+				add("mdel %d %s", nm-1, hx(kids[i]))
+				nm++
+				add("mget %d %s", nm-1, hx(stem))
+				add("mprefix %d %s", nm-1, hx(stem))
+				add("mlb %d %s", nm-1, hx(stem))
+				add("mall %d", nm-1)
+				add("mlen %d", nm-1)
+				add("sdel %d %s", ns-1, hx(kids[i]))
+				ns++
+				add("shas %d %s", ns-1, hx(stem))
+				add("sall %d", ns-1)
+			}
+			add("meq %d %d", nm-1, nm-2)
+			add("seq %d %d", ns-1, ns-2)
+		}
 		for i := 0; i < steps; i++ {
 			m := r.IntN(nm)
 			if r.IntN(3) != 0 {
